@@ -1,16 +1,17 @@
-\* quick, exhaustive: scheduling / limit focus. 2 users, 3 uploads (user 1 has two), limit 1 changed once,
-\* unbounded life cycles, plain attributes. 99 = Unbounded.
+\* quick, exhaustive: scheduling focus. 2 users, 3 uploads (user 1 has two), limit 1, three life-cycle events
+\* (enough for: negotiated, failed while uploading with the task still in flight, asked for again).
 SPECIFICATION Spec
 CONSTANTS
   UploadIds = {1, 2, 3}
   PerUser = 2
   MaxSlots = 2
   InitSlots = {1}
+  InitTruth = {"unknown"}
   AnyInitAttr = FALSE
   Statuses = {"unknown", "offline", "away", "online"}
-  SlotBudget = 1
+  SlotBudget = 0
   AttrBudget = 0
-  LifeBudget = 99
+  LifeBudget = 3
   TrackMgmt = TRUE
   GrantAll = FALSE
   UseUploadingUsers = TRUE
@@ -20,7 +21,10 @@ CONSTANTS
   WFriend = 5
   WPriv = 100
   StateChangeNotifies = TRUE
-  SlotsChangeNotifies = FALSE
+  SlotsChangeNotifies = TRUE
+  TaskEndNotifies = FALSE
+  RequeueTail = FALSE
+  TrackPerUser = TRUE
 INVARIANT TypeOK
 INVARIANT OnePerUser
 INVARIANT FlagsIffQueued
@@ -28,6 +32,8 @@ INVARIANT WakeIffRunnable
 INVARIANT NoDoubleTask
 INVARIANT TaskOnlyQueued
 INVARIANT OneTaskPerUser
+INVARIANT KnowledgeKept
+INVARIANT NoTaskWhileInFlight
 PROPERTY StartRespectsLimit
 PROPERTY NeverOffline
 PROPERTY PriorityHolds
